@@ -366,7 +366,40 @@ func alnCheck(r *obs.Run, which string, c alnCase, al alphabet.Alphabet, M [][]i
 		}
 		quality := r.Rng.Intn(2) == 0
 		rsq, qsq := alnMkSeq(rb, al, quality, r.Rng), alnMkSeq(qb, al, quality, r.Rng)
-		fa := align.Format(rsq.(seq.Sequence), qsq.(seq.Sequence), out.raw, gapArg)
+		pairsForFormat := out.raw
+		if r.Rng.Intn(5) == 0 {
+			// sequences that do not start at position 0. Whether pairs then count from the first letter (as the pinned tree
+			// does) or in sequence coordinates is not fixed by the statement; they must be one of the two, and Format must
+			// read them the way the aligner wrote them.
+			ro, qo := 1+r.Rng.Intn(50), 1+r.Rng.Intn(50)
+			if r.Rng.Intn(3) == 0 {
+				ro = -1 - r.Rng.Intn(7)
+			}
+			rsq.(interface{ SetOffset(int) error }).SetOffset(ro)
+			qsq.(interface{ SetOffset(int) error }).SetOffset(qo)
+			po := alnPlainRun(ag, rsq, qsq)
+			same, shifted := po.panicked == nil && po.err == nil && len(po.pairs) == len(out.pairs), true
+			shifted = same
+			for k := range out.pairs {
+				if !same && !shifted {
+					break
+				}
+				a, b := out.pairs[k], po.pairs[k]
+				if a != b {
+					same = false
+				}
+				if (alnPair{a.AS + ro, a.AE + ro, a.BS + qo, a.BE + qo, a.Score}) != b {
+					shifted = false
+				}
+			}
+			if !same && !shifted {
+				viol("offset-dependence", fmt.Sprintf("with the sequences starting at %d and %d the aligner answers %v (err %v, panic %v); starting at 0 it answered %v", ro, qo, po.pairs, po.err, po.panicked, out.pairs), nil)
+				return
+			}
+			pairsForFormat = po.raw
+			r.Count("format_renderings_of_sequences_with_an_offset", 1)
+		}
+		fa := align.Format(rsq.(seq.Sequence), qsq.(seq.Sequence), pairsForFormat, gapArg)
 		var rows [2]string
 		for k := range rows {
 			switch v := fa[k].(type) {
@@ -584,7 +617,7 @@ func alnPlainRun(a align.Aligner, ref, query align.AlphabetSlicer) (out alnRunOu
 		}
 	}()
 	raw, err := a.Align(ref, query)
-	out.err = err
+	out.err, out.raw = err, raw
 	for _, p := range raw {
 		fs := p.Features()
 		sc := 0
@@ -740,6 +773,23 @@ func alnRandomCase(r *obs.Run, which string) {
 			id = "random-oversize"
 			r.Count("oversize_square_matrices", 1)
 		}
+	}
+	if rng.Intn(12) == 0 { // scores that need more than 32 bits: a pairing ruled out by a penalty of -2^40, match weights of 3e9
+		n := aa.a.Len()
+		if rng.Intn(2) == 0 {
+			for k := 1 + rng.Intn(3); k > 0; k-- {
+				i, j := 1+rng.Intn(n-1), 1+rng.Intn(n-1)
+				if i != j {
+					M[i][j], M[j][i] = -(1 << 40), -(1 << 40)
+				}
+			}
+		} else {
+			for i := 1; i < n; i++ {
+				M[i][i] = 3000000000 + rng.Intn(5)
+			}
+		}
+		id += "/wide-values"
+		r.Count("matrices_with_scores_beyond_32_bits", 1)
 	}
 	ln := func() int {
 		switch rng.Intn(4) {
